@@ -98,7 +98,7 @@ class IntervalRegressor(BaseEstimator, RegressorMixin):
             Xr = X[rnd]
             yr = y[rnd]
             sr = sample_weight[rnd] if sample_weight is not None else None
-            return est.fit(Xr, yr, sr)
+            return est.fit(Xr, yr, sample_weight=sr)
 
         self.estimators_ = Parallel(
             n_jobs=self.n_jobs, verbose=verbose, prefer="threads"
